@@ -499,7 +499,15 @@ func c40DivisorGuarded(fn *ssa.Function, d *ssa.BinOp) bool {
 		}
 
 		// conversions of the same value, or loads of the same cell
-		return stripValue(v) == stripValue(y) || sameSliceValue(v, y)
+		if stripValue(v) == stripValue(y) || sameSliceValue(v, y) {
+			return true
+		}
+
+		// v2.(T) written twice: the same operand asserted to the same type
+		ta, ok1 := v.(*ssa.TypeAssert)
+		tb, ok2 := y.(*ssa.TypeAssert)
+
+		return ok1 && ok2 && !ta.CommaOk && !tb.CommaOk && types.Identical(ta.AssertedType, tb.AssertedType) && (ta.X == tb.X || sameSliceValue(ta.X, tb.X))
 	}
 
 	cuts := cutEdges(fn, func(f Fact) bool {
@@ -573,6 +581,16 @@ func c40DivisorGuarded(fn *ssa.Function, d *ssa.BinOp) bool {
 // FieldAddr / load / method call with p as the receiver in a block reachable
 // from the nil edge only (dominated by it).
 func c40NilContradictions(w *World, r *Report, fn *ssa.Function, mkKey func(string) string) {
+	ex := map[string]string{}
+	c40NilContradictionsGeneric(w, r, fn, mkKey, "R-C40-5", ex, c40NilOK)
+}
+
+// c40NilContradictionsTo: the same rule under another id with a plain exception table.
+func c40NilContradictionsTo(w *World, r *Report, fn *ssa.Function, mkKey func(string) string, rule string, ok map[string]string) {
+	c40NilContradictionsGeneric(w, r, fn, mkKey, rule, ok, nil)
+}
+
+func c40NilContradictionsGeneric(w *World, r *Report, fn *ssa.Function, mkKey func(string) string, rule string, plainOK map[string]string, sideOK map[string]c40NilException) {
 	type finding struct {
 		first ssa.Instruction
 		cond  ssa.Value
@@ -658,18 +676,20 @@ func c40NilContradictions(w *World, r *Report, fn *ssa.Function, mkKey func(stri
 		fd := found[v]
 		key := mkKey("nil-tested " + c40Describe(v) + " dereferenced")
 
-		if ex, ok := c40NilOK[key]; ok {
+		if why, ok := plainOK[key]; ok {
+			r.Except(rule, key, w.pos(fd.first.Pos()), why)
+		} else if ex, ok := sideOK[key]; ok {
 			if ex.side != nil {
 				if problem := ex.side(w); problem != "" {
-					r.Violate("R-C40-5", key, w.pos(fd.first.Pos()), "the invariant that made this exception safe no longer holds: "+problem)
+					r.Violate(rule, key, w.pos(fd.first.Pos()), "the invariant that made this exception safe no longer holds: "+problem)
 
 					continue
 				}
 			}
 
-			r.Except("R-C40-5", key, w.pos(fd.first.Pos()), ex.why)
+			r.Except(rule, key, w.pos(fd.first.Pos()), ex.why)
 		} else {
-			r.Violate("R-C40-5", key, w.pos(fd.first.Pos()), "the value is compared with nil at "+w.pos(fd.cond.Pos())+" and dereferenced on a path from the nil edge (first of "+sprintInt(fd.n)+" dereferences): a request that makes it nil panics the handler")
+			r.Violate(rule, key, w.pos(fd.first.Pos()), "the value is compared with nil at "+w.pos(fd.cond.Pos())+" and dereferenced on a path from the nil edge (first of "+sprintInt(fd.n)+" dereferences): a request that makes it nil panics the handler")
 		}
 	}
 }
